@@ -1191,3 +1191,14 @@ def main(ctx):
                 for form in forms:
                     tyunits.append((meth, zs, form, where))
     ctx.lattice("typed-scalars", tyunits, one_typed, bounds=dict(types=["f4", "f8", "i8", "i1", "u1", "Python int", "0-d arrays"], where=["z", "H0", "omega_m", "omega_l"]))
+
+    # ------------------------------------------------------------ many distinct calls / objects, then each again
+    from mc.worlds import revisit
+    ZP = [(round(0.05 * k, 3), round(0.05 * k + 0.3 + 0.01 * k, 3)) for k in range(44)]
+    R_OMS = [round(0.1 + 0.02 * k, 3) for k in range(44)]
+    revisit(ctx, "revisit-after-many-distinct-calls", {
+        "one Cosmo, 44 redshift pairs": (lambda: Cosmo(omega_m=0.3, omega_l=0.6, flat=False, H0=70.0), [("pair",) + p for p in ZP],
+                                         lambda c, q: [np.asarray(getattr(c, m)(q[1], q[2])) for m in ("Dc", "Dm", "Da", "Dl", "V", "sigmacritinv")]),
+        "44 cosmologies in turn": (lambda: {}, [("cosmo", om) for om in R_OMS],
+                                   lambda cache, q: [np.asarray(Cosmo(omega_m=q[1], omega_l=0.7, flat=False).Dm(0.2, 1.7)), np.asarray(Cosmo(omega_m=q[1]).Da(0.0, np.array([0.5, 1.0])))]),
+    })
